@@ -27,6 +27,7 @@ import HugrVerif.Proofs.Build
 import HugrVerif.Props.C04
 import HugrVerif.Props.C13
 import HugrVerif.Proofs.BuildLocalProg
+import HugrVerif.Proofs.BuildInsert
 
 namespace HugrVerif.Props.C01
 open HugrVerif HugrVerif.Validate
@@ -738,6 +739,22 @@ theorem dfg_programs_edge_kinds (enc : String) (cmds : List Cmd) (st' : BuildSta
     (hid : Nat) (s : St) (hs : st'.getHugr hid = .ok s) (l : Port × Port) (hl : l ∈ linksList s) :
     (l.1.2 = -1 ↔ l.2.2 = -1) :=
   ((run_binv enc cmds {} st' hL binv_empty h).stores hid s hs).kind l hl
+
+/-- **`insert_hugr` keeps edge locality and edge kinds** (the step the `insert_nested / insert_cfg / insert_conditional /
+    insert_tail_loop` commands add to the sub-language above): when every value link of A and of B is local or
+    accompanied by its state-order link, so is every value link of the result — the image of a non-local wire of B keeps
+    the image of its order link, because `insert_hugr` copies EVERY link of B, order links included
+    (`links_embedded`) — and a link of the result joins order ports exactly when it did in A or B.  B's hierarchy walk is
+    required to be duplicate-free, which holds for every B built through the API (`C04.hierarchy_order_exact`). -/
+theorem insert_hugr_keeps_locality (a a' b : St) (ha : LInvS a) (hb : LInvS b) (parent : Option Nat)
+    (mp : Py.Dict Nat Nat) (order : List Nat) (ho : Store.hierarchyOrder b = .ok order) (hnd : order.Nodup)
+    (h : Store.insertHugr a b parent = .ok (a', mp)) :
+    (∀ l ∈ linksList a', 0 ≤ l.2.2 → ¬ (∃ op, nodeOp a' l.2.1 = .ok op ∧ staticIn op = some l.2.2.toNat) →
+      ∃ anc p, nodeParent a' l.1.1 = .ok (some p) ∧ Anc a' l.2.1 anc ∧ nodeParent a' anc = .ok (some p) ∧
+        (anc ≠ l.2.1 → ((l.1.1, (-1 : Int)), (anc, (-1 : Int))) ∈ linksList a')) ∧
+    (∀ l ∈ linksList a', (l.1.2 = -1 ↔ l.2.2 = -1)) := by
+  obtain ⟨_, h1, h2⟩ := insertHugr_locInv a a' b ha hb parent mp order ho hnd h
+  exact ⟨h1, h2⟩
 
 /-- The same from any state that satisfies the invariant (programs continue each other). -/
 theorem dfg_programs_keep_invariant (enc : String) (cmds : List Cmd) (st st' : BuildState)
